@@ -143,7 +143,11 @@ RefAfterUpdate(ref, strictE, envE, now, T) ==
     ELSE IF strictE THEN [present |-> TRUE, created |-> now, lastcheck |-> 0 - 1, err |-> TRUE, meta |-> 0]
     ELSE NoRef                                                       \* not queryable: closed at once
 Queryable(ref, strictE) == ref.present /\ (strictE \/ ~ref.err)
-RefStore(ref, metas) == IF ref.meta = 0 THEN AnyStore ELSE metas[ref.meta]
+(* endpointRef.labelSets() drops empty label sets from the advertisement (known finding          *)
+(* endpoint-drops-empty-labelset: with an empty and a non-empty label set advertised together the *)
+(* store is then pruned on the non-empty ones alone)                                              *)
+RefStore(ref, metas) == IF ref.meta = 0 THEN AnyStore
+                        ELSE [metas[ref.meta] EXCEPT !.lsets = SelectSeq(@, LAMBDA ls : ls # <<>>)]
 AlgoClients(refs, strict) == { e \in DOMAIN refs : Queryable(refs[e], strict[e]) }
 AlgoContacted(refs, strict, metas, q) == { e \in AlgoClients(refs, strict) : StoreMatches(RefStore(refs[e], metas), q) }
 =============================================================================
